@@ -6,9 +6,24 @@ import (
 	"net/netip"
 	"strings"
 
-	"github.com/jub0bs/cors/internal/origins"
+	"golang.org/x/net/idna"
 	"golang.org/x/net/publicsuffix"
 )
+
+// The IDNA profile the package is meant to use (strict registration-style validation: Bidi rule, label validation,
+// strict domain names, DNS length limits; no mapping step), built HERE so that the oracle does not depend on the
+// profile variable of the code under test.
+var refProfile = idna.New(
+	idna.BidiRule(),
+	idna.ValidateLabels(true),
+	idna.StrictDomainName(true),
+	idna.VerifyDNSLength(true),
+)
+
+func refIDNA(host string) bool {
+	_, err := refProfile.ToASCII(host)
+	return err == nil
+}
 
 // Oracle answers of the real libraries for every host string the model may ask about.
 // The candidates are computed here independently of the implementation's parser.
@@ -46,7 +61,7 @@ func oracleFor(patterns []string) SX {
 				continue
 			}
 			seen[h] = true
-			ace = append(ace, L(B(h), Bool(origins.VerifIDNA(h))))
+			ace = append(ace, L(B(h), Bool(refIDNA(h))))
 			etld, _ := publicsuffix.PublicSuffix(h)
 			psl = append(psl, L(B(h), Bool(etld == h)))
 			var v SX
